@@ -352,6 +352,9 @@ def handle (d : DState) (j : Json) : DState × Json :=
         let extra := (if x.stepped then [("class", Json.str cls)] else []) ++ [("voted", Json.bool ok)]
         finish d extra
       else
+        -- a stepped handler that waits for the previous block gives up when the harness lets the view deadline pass;
+        -- the poll interval of the schedule task passes with it
+        let d := if x.stepped && cls == "rejected:MissingPreviousPayload" then (pollNow d).getD d else d
         finish d ((if x.stepped then [("class", Json.str cls)] else []) ++ [("voted", Json.bool false)])
     | _, _ => finish d [("voted", Json.bool false)]
   | some "commits" =>
